@@ -376,12 +376,20 @@ _tg, _te = _thr.make(T_CALLS, ['geodepy/statistics.py', 'geodepy/geodesy.py'], '
                      quick=['rot_alice', 'rot_m1', 'rot_m2', 'c2l_a', 'c2l_b', 'relerr'], triple=('c2l_a', 'c2l_b', 'enu2xyz'))
 
 
+from gpmc import callforms as _cf
+
+
+from gpmc import interp as _ip
+
+
 SUBCHECKS = [
     Sub('frame', gen_frame, ev_frame, chunk=2, floor=200, guard=True, envs=3),
     Sub('vcv', gen_vcv, ev_vcv, chunk=1, floor=200, guard=True, envs=3),
     Sub('ellipse', gen_ell, ev_ell, chunk=1, floor=30, guard=True, envs=2),
     Sub('ktable', gen_k, ev_k, chunk=1, floor=200, parallel=False, guard=True),
     Sub('threads', _tg, _te, chunk=1, floor=3, poison=False, fresh=True, timeout=3600),
+    Sub('callforms', *_cf.make('C16', 'statistics'), chunk=1, floor=1, guard=True),
+    Sub('interpreter', *_ip.make('C16', 'statistics'), chunk=1, floor=5, poison=False),
 ]
 
 
